@@ -7,7 +7,7 @@ use crate::rng::Rng;
 use serde_json::json;
 use tls_parser::*;
 
-pub const RULE: &str = "complete sweep of 25 states x 2 directions x {18 handshake kinds (ClientHello split by session-id presence), ChangeCipherSpec, all 65536 (level,description) alerts, application data, heartbeat}; plus 64 random payloads per non-alert kind and cell, the full cross product of meaningful field values of the hello / HelloRetryRequest / KeyUpdate / CertificateStatus / heartbeat messages per cell (15 versions x 8 session-id forms (absent; present with 0, 1, 32, 33, 255, 256, 70000 bytes) x 4 compressions x 13 cipher classes x 6 extension blocks x 5 randoms for ServerHello, similarly for the others; opaque fields of every kind with 0 .. 2^20 bytes incl. 65535 / 65536 / 65537), the documented flows as explicit sequences, BFS reachability from None and random walks in lock-step with the reference relation. distinct_nontrivial counts distinct (family, state, direction, kind class, outcome) tuples observed";
+pub const RULE: &str = "complete sweep of 25 states x 2 directions x {18 handshake kinds (ClientHello split by session-id presence), ChangeCipherSpec, all 65536 (level,description) alerts, application data, heartbeat}; plus 64 random payloads per non-alert kind and cell, the full cross product of meaningful field values of the hello / HelloRetryRequest / KeyUpdate / CertificateStatus / heartbeat messages per cell (15 versions x 8 session-id forms (absent; present with 0, 1, 32, 33, 255, 256, 70000 bytes) x 4 compressions x 13 cipher classes x 6 extension blocks x 5 randoms for ServerHello, similarly for the others; opaque fields of every kind with 0 .. 2^20 bytes incl. 65535 / 65536 / 65537), every ordered pair of message kinds per cell (call-history independence), the documented flows as explicit sequences, BFS reachability from None and random walks in lock-step with the reference relation. distinct_nontrivial counts distinct (family, state, direction, kind class, outcome) tuples observed";
 pub const ASSUMPTIONS: &[&str] = &[
     "reference relation is DESIGN.md appendix A.1, written from the property text; cells the text leaves open (server-side CCS after ClientKeyExchange, CCS direction on resumption, HelloRequest from the client) carry an allowed set",
     "ClientHello with session_id = Some(empty slice) counts as 'session id present' (Option presence), although the parser never produces it",
@@ -564,6 +564,45 @@ pub fn run(ctx: &mut Ctx) {
         if ctx.wants_sample() {
             ctx.sample(json!({"family": "content-matrix", "state": format!("{:?}", s), "to_server": to_server, "combinations": calls}));
         }
+    });
+
+    // ------------------------------------------------ call history: the result of a call is a function of its arguments. For every
+    // (state, direction) and every ORDERED PAIR of message kinds (alerts at levels 0, 1, 2, 3, 255), the second
+    // call, made with the same stale state right after the first, must give what it gives on its own
+    ctx.floor("history.pairs", 50 * 400);
+    ctx.sweep("call-history-pairs", 50, |ctx, idx| {
+        let s = STATES[(idx / 2) as usize];
+        let to_server = idx % 2 == 0;
+        let mut rng = Rng::new(0xC08C + idx);
+        let sc = Scratch::new(&mut rng);
+        let mut items: Vec<(K, (u8, u8))> = HS_KINDS.iter().map(|k| (*k, (0, 0))).collect();
+        items.extend([(K::Ccs, (0, 0)), (K::AppData, (0, 0)), (K::Heartbeat, (0, 0))]);
+        for lvl in [0u8, 1, 2, 3, 255] {
+            for desc in [0u8, 10, 40, 100] {
+                items.push((if lvl == 1 { K::AlertWarning } else { K::AlertOther }, (lvl, desc)));
+            }
+        }
+        let msgs: Vec<TlsMessage> = items.iter().map(|(k, a)| make(*k, &sc, &mut rng, *a)).collect();
+        let alone: Vec<R> = msgs.iter().map(|m| tls_state_transition(s, m, to_server)).collect();
+        let mut pairs = 0u64;
+        for (i, m1) in msgs.iter().enumerate() {
+            for (j, m2) in msgs.iter().enumerate() {
+                let _ = tls_state_transition(s, m1, to_server);
+                let got = tls_state_transition(s, m2, to_server);
+                pairs += 1;
+                if got != alone[j] {
+                    ctx.violation(
+                        format!("c08:call-history-dependence:{:?}:{:?}-after-{:?}", s, items[j].0, items[i].0),
+                        json!({"state": format!("{:?}", s), "to_server": to_server, "first_call": format!("{:.200?}", m1), "second_call": format!("{:.200?}", m2),
+                               "second_call_alone": res_str(&alone[j]), "second_call_after_first": res_str(&got)}),
+                    );
+                    return;
+                }
+            }
+        }
+        ctx.evals(pairs);
+        ctx.add("history.pairs", pairs);
+        ctx.shape(&("history", idx));
     });
 
     // ------------------------------------------------ documented flows (explicit sequences)
